@@ -73,8 +73,9 @@ int NLW2_DblSuffixReadOK(void* p_api_data);
 typedef struct AMPLOptions_C {
   /// Actual number of options
   int n_options_;
-  /// Option values
-  long options_[MAX_AMPL_OPTIONS];
+  /// Option values as in the .sol file: the option count, the options,
+  /// and the 4 size fields (up to MAX_AMPL_OPTIONS + 5 values)
+  long options_[MAX_AMPL_OPTIONS + 5];
   /// Whether vbtol specified
   int has_vbtol_;
   /// vbtol value
